@@ -49,7 +49,9 @@ class Barrier(object):
                     g = f
                     while g is not None:
                         fn = g.f_code.co_filename
-                        if "/amoco/" in fn:
+                        # signed()/unsigned() are documented to modify their receiver:
+                        # the site is the caller that applied them to a shared node
+                        if "/amoco/" in fn and g.f_code.co_qualname not in ("exp.signed", "exp.unsigned"):
                             site = "%s:%s" % (fn.split("/amoco/")[-1], g.f_code.co_qualname)
                             break
                         g = g.f_back
